@@ -258,6 +258,9 @@ def rule_r4(p, res):
     r.check(len(st) == 1 and len(aug) == 1 and g2.reaches(st[0], aug[0]) and not g2.reaches(aug[0], st[0]), ip, ip.node, "the old singular values must be computed from the un-weighted old count")
 
 
+# rules of sibling properties over code paths this property's statement also quantifies over (DESIGN.md section 3, shared rules)
+ALSO = ['C12.R1', 'C12.R5']
+
 RULES = [rule_r1, rule_r2, rule_r3, rule_r4]
 
 WITNESSES = [
